@@ -198,7 +198,7 @@ theorem extract_plainInt (hT : TablesOK T) (sp : Nat → Bool) (hsp : ∀ c, isD
     (fam : List (Nat × RE)) (hfam : FamilyOK fam = true) {lb1 : RE} {lb2 : Option RE} {F : List Item} {nla ph : RE}
     (hp : PartsOK T lb1 lb2 F nla ph) {idx : Nat}
     (hidx : (idx, numbersWithPlaceHolderOf lb1 (boundaryWith lb2) nla ph) ∈ fam)
-    (pre post : Str) (hpre : PreOK T pre) (hpost : PostOK T post) (neg : Bool) (ds : List Nat)
+    (pre post : Str) (hpre : PreOK T pre) {fol : Str → Bool} (hpost : PostOK T fol post) (neg : Bool) (ds : List Nat)
     (hn : 1 ≤ ds.length) (hd : ∀ x ∈ ds, x < 10)
     (ng : Nat → Option (Nat × Nat)) (ambs : List (List (Nat × Nat)))
     (hq : Quiet ng ambs pre.length (pre.length + (plainIntText neg ds).length)) :
@@ -243,7 +243,7 @@ theorem extract_plainDec (hT : TablesOK T) (sp : Nat → Bool) (hsp : ∀ c, isD
     (hp : PartsOK T lb1 lb2 F nla ph) {marks : List Item} {d : Nat} (hd0 : 0 < d)
     (hdm : clsTest T marks false d = true) (hdd : T.digit d = false) {idx : Nat}
     (hidx : (idx, doubleDecimalPointOf lb1 (boundaryWith lb2) marks nla ph) ∈ fam)
-    (pre post : Str) (hpre : PreOK T pre) (hpost : PostOK T post) (neg : Bool) (ds Fr : List Nat)
+    (pre post : Str) (hpre : PreOK T pre) {fol : Str → Bool} (hpost : PostOK T fol post) (neg : Bool) (ds Fr : List Nat)
     (hn : 1 ≤ ds.length) (hd : ∀ x ∈ ds, x < 10) (hF : 1 ≤ Fr.length) (hFd : ∀ x ∈ Fr, x < 10)
     (ng : Nat → Option (Nat × Nat)) (ambs : List (List (Nat × Nat)))
     (hq : Quiet ng ambs pre.length (pre.length + (plainDecText d neg ds Fr).length)) :
